@@ -54,7 +54,7 @@ func (r *Resp) Describe() map[string]interface{} {
 var RespFactors = []string{"proto", "status", "reason", "upgrade", "connection", "accept", "protocol", "extensions", "extra", "eol"}
 
 var RespVariants = map[string][]string{
-	"proto":      {"HTTP/1.1", "HTTP/1.0", "HTTP/1.2", "HTTP/1.10", "HTTP/2.0", "HTTP/0.9", "HTTP/1.:", "HTTP/1.1x", "HTTP/1", "HTTP/1.01", "http/1.1"},
+	"proto":      {"HTTP/1.1", "HTTP/1.0", "HTTP/1.2", "HTTP/1.10", "HTTP/2.0", "HTTP/0.9", "HTTP/1.:", "HTTP/1.1x", "HTTP/1", "HTTP/1.01", "http/1.1", "Http/1.1", "hTTp/1.2", "http/1.10"},
 	"status":     {"101", "200", "400", "100", "102", "301", "0:1", "09;", "0101", "+101", "1e2", "18446744073709551717", "1O1", "10", "1010", "missing", "-101", " 101"},
 	"reason":     {"Switching Protocols", "", "whatever you like", "101"},
 	"upgrade":    {"canonical", "absent", "case-name", "case-value", "blanks", "wrong", "empty", "dup-same", "dup-diff", "trailing-cr"},
@@ -88,9 +88,13 @@ func BuildResp(rng *rand.Rand, choice map[string]string, in ReqInfo) *Resp {
 	switch p := get("proto"); p {
 	case "HTTP/1.1", "HTTP/1.2", "HTTP/1.10":
 		r.Proto = p
-	case "HTTP/1.01", "http/1.1":
+	case "HTTP/1.01":
 		r.Proto = p
 		v.MarkOpen("version token " + p)
+	case "http/1.1", "Http/1.1", "hTTp/1.2", "http/1.10":
+		// the protocol name is case-sensitive (RFC 7230 §2.6: HTTP-name = %x48.54.54.50): not an HTTP/1.x status line
+		r.Proto = p
+		v.Reject("protocol name " + p)
 	default:
 		r.Proto = p
 		v.Reject("version " + p)
